@@ -1,6 +1,7 @@
 import McpModel.Base.Proto
 import McpModel.KeepAlive.Monitor
 import McpModel.KeepAlive.PeerReading
+import McpModel.KeepAlive.Starve
 /-!
 Driver for E9 (C13).  One record = one keep-alive scenario under virtual time.
 
@@ -77,7 +78,7 @@ def parseScenario (real : Bool) (toks : List String) : Option Scenario := do
   -- the property's reading of that (PeerReading.lean: `reading`), not one of the harness's own making
   let wireOk : Bool := match kv toks "wire" with
     | none => true
-    | some w => match parseWire w with
+    | some w => match (parseMode (kv toks "mode")).bind fun mode => parseWire mode w with
       | some ws => decide (readWire ws = scripts)
       | none => false
   if I == 0 || !wireOk then none else
@@ -198,12 +199,38 @@ def selfCheck (m : Obs) : Option String :=
   if (parseObs (renderObs m)).map norm == some (norm m) then none
   else some "LIBDISC render/parse: the model's observation does not survive the string layer"
 
-def judge (sc : Scenario) (impl : String) : Verdict :=
+def parseBusyEl (s : String) : Option Busy :=
+  match s.splitOn "@" with
+  | [k, r] => match r.splitOn "+" with
+    | [f, d] => do
+      let f ← f.toNat?
+      let d ← d.toNat?
+      return { kind := k, from_ := f, dur := d }
+    | _ => none
+  | _ => none
+
+/-- `busy=<kind>@<from>+<dur>;…` (absent: no other session) -/
+def parseBusy (toks : List String) : Option (List Busy) :=
+  match kv toks "busy" with
+  | none => some []
+  | some "-" => some []
+  | some v => (v.splitOn ";").mapM parseBusyEl
+
+def Clause2.text (frames : String) (I : Nat) : Clause2 → String
+  | .base c => c.text
+  | .starved k due b =>
+    let who := match b with
+      | some x => s!"while the {x.kind} handler of ANOTHER session of the same Server/Client value is running (parked from {x.from_} until {x.from_ + x.dur})"
+      | none => "while no handler of another session was scripted to run"
+    s!"answer_resets/close_time_bound: keep-alive starved: ping {k} of this session, due at {due}, could not start — its goroutine waits for a lock in {frames} {who}; every goroutine is blocked and the ping's timeout ({I / 2}) runs out before a byte is written, so a peer that answers would be counted as missing and a dead peer is detected late; a keep-alive ping never waits for another session's handler (KeepAlive.Indep.never_stalled)"
+
+def judge (sc : Scenario) (busy : List Busy) (impl : String) : Verdict :=
   let o := parseObs impl
   let m := modelObs sc (o.bind (·.sess))
+  let frames := kv (words impl) "starved"
   let viol : Option String := match o with
     | none => some s!"bad-observation: {impl}"
-    | some o => (monitor sc o).map Clause.text
+    | some o => (monitor2 sc busy o frames.isSome).map (Clause2.text (frames.getD "?") sc.I)
   { model := renderObs m, violated := viol <|> selfCheck m }
 
 def engine : Engine Unit where
@@ -213,13 +240,13 @@ def engine : Engine Unit where
     | ["reset"] => ((), { model := "ok" })
     | kind :: rest =>
       if kind == "ka" ∨ kind == "kas" then
-        match parseScenario (kind == "kas") rest with
-        | none => ((), { model := "bad-op" })
-        | some sc => ((), judge sc impl)
+        match parseScenario (kind == "kas") rest, parseBusy rest with
+        | some sc, some busy => ((), judge sc busy impl)
+        | _, _ => ((), { model := "bad-op" })
       else if kind == "kss" then
         match parseSess rest with
         | none => ((), { model := "bad-op" })
-        | some sc => ((), judge sc impl)
+        | some sc => ((), judge sc [] impl)
       else ((), { model := "bad-op" })
     | _ => ((), { model := "bad-op" })
 
